@@ -217,14 +217,14 @@ func (s *c04Src) i64(min, max int64) int64 {
 // ---------------------------------------------------------------- builder environment
 
 type c04Env struct {
-	src    *c04Src
-	c      c04Combo
-	big    bool // a large (> 1000 byte) field was already produced
-	labels map[string]bool
-	genErr error  // an error raised while preparing a permitted value (e.g. component -> NBT conversion)
-	genKey string // violation key for genErr
-	wide   bool   // wide alphabet for component strings
-	dataLen int   // forced plugin message payload length (0 = generated)
+	src     *c04Src
+	c       c04Combo
+	big     bool // a large (> 1000 byte) field was already produced
+	labels  map[string]bool
+	genErr  error  // an error raised while preparing a permitted value (e.g. component -> NBT conversion)
+	genKey  string // violation key for genErr
+	wide    bool   // wide alphabet for component strings
+	dataLen int    // forced plugin message payload length (0 = generated)
 }
 
 func (e *c04Env) label(l string) { e.labels[l] = true }
